@@ -7,8 +7,9 @@ from harness.runner import Part, Result
 from props import mdcommon
 
 ID = "C05"
-RULE = ("Pipelines over all node kinds, inputs mod 6 (duplicates and colliding keys so that "
-        "de-duplicating / lossy nodes drop), schedules as C02 with mostly synchronous consumers, "
+RULE = ("Pipelines over all node kinds, inputs mod 6 or a plain None (duplicates and colliding "
+        "keys so that de-duplicating / lossy nodes drop), schedules as C02 with mostly "
+        "synchronous consumers (also native coroutines, except below collect), "
         "an instrumented RefCounter per emission. At every quiescent point (after an action: loop "
         "idle, no consumer or job pending) and after the finish phase: for every counter, "
         "count == number of nodes legitimately holding it, computed by the reference semantics "
